@@ -19,7 +19,8 @@ def run(ctx):
     ctx.assumptions += [
         "the bounded fibre::mpsc channel is represented by its sequential FIFO specification plus a visible/in-flight distinction (its internals are C01-C05)",
         "HashMap iteration orders are arbitrary lists; byte length and char count order prefixes of one target identically",
-        "only custom-stream appenders are exercised in the child processes (the writer-thread loop of console/file appenders is modelled and proved about, tied by reading only)",
+        "routing is exercised through custom-stream appenders; the writer-thread loop is exercised by the shutdown-race tie with one file appender (console / rolling_file share run_byte_appender_writer)",
+        "F12b (accepted in-flight send lost when the writer exits) is not observable from outside the process: `log!`/`event!` do not return the send result; it is proved on the model only",
         "tracing callsite interest caching is sound because DispatchLayer::enabled depends on (target, level) only",
     ]
     if ctx.replay:
@@ -27,3 +28,6 @@ def run(ctx):
     ctx.tie("known-findings+corpus", [h, "run", os.path.join(VERIF, "findings", "C19_F12a.case")], [drv])
     n = 500 if ctx.quick else 12000
     ctx.tie("route-differential", [h, "gen", "--seed", str(ctx.seed), "--cases", str(n), "--tier", ctx.tier], [drv], timeout=3000)
+    # shutdown racing k emitting threads: custom stream + file appender (writer thread), Block policy
+    r = 80 if ctx.quick else 3000
+    ctx.tie("shutdown-race", [h, "gen", "--seed", str(ctx.seed), "--cases", str(r), "--kind", "race"], [drv], timeout=3000)
